@@ -760,13 +760,12 @@ fn decode_lines() -> Vec<String> {
         if !(l.contains("PDU") || l.contains("MBAP") || l.contains("PHYS")) {
             continue;
         }
-        // drop the channel's span prefix (it names the port, which differs between two runs by construction)
+        // drop the span prefix (it names ports and peer addresses, which differ between two runs by construction)
         let s = if let Some(i) = l.find("Transaction{") {
             l[i..].to_string()
-        } else if let Some(i) = l.find("}}: ") {
-            l[i + 4..].to_string()
         } else {
-            l.clone()
+            let i = ["PDU ", "MBAP ", "PHYS "].iter().filter_map(|k| l.find(k)).min().unwrap_or(0);
+            l[i..].to_string()
         };
         out.push(s.trim().to_string());
     }
@@ -798,12 +797,92 @@ impl rodbus::client::Listener<rodbus::client::ClientState> for RustStates {
     }
 }
 
+struct FixedHandler;
+impl rodbus::server::RequestHandler for FixedHandler {
+    fn read_holding_register(&self, address: u16) -> Result<u16, rodbus::ExceptionCode> {
+        if address < 4 { Ok(0) } else { Err(rodbus::ExceptionCode::IllegalDataAddress) }
+    }
+}
+
+fn one_exchange(port: u16) {
+    if let Ok(mut s) = TcpStream::connect(("127.0.0.1", port)) {
+        s.set_nodelay(true).ok();
+        let _ = s.write_all(&mbap(7, 1, &[3, 0, 1, 0, 2]));
+        let _ = read_frame(&mut s, 3000);
+        std::thread::sleep(Duration::from_millis(30));
+    }
+}
+
+/// server role: one identical request served by a C-ABI server and by a Rust server at the same-named decode level
+fn decode_levels_server(sink: &Sink, a: usize, f: usize, p: usize, via_set: bool) {
+    let level: ffi::DecodeLevel = ffi::DecodeLevelFields {
+        app: [ffi::AppDecodeLevel::Nothing, ffi::AppDecodeLevel::FunctionCode, ffi::AppDecodeLevel::DataHeaders, ffi::AppDecodeLevel::DataValues][a].clone(),
+        frame: [ffi::FrameDecodeLevel::Nothing, ffi::FrameDecodeLevel::Header, ffi::FrameDecodeLevel::Payload][f].clone(),
+        physical: [ffi::PhysDecodeLevel::Nothing, ffi::PhysDecodeLevel::Length, ffi::PhysDecodeLevel::Data][p].clone(),
+    }
+    .into();
+    let cabi = unsafe {
+        let rt = runtime();
+        let port = free_port();
+        let handler = ffi::WriteHandler { write_single_coil: None, write_single_register: None, write_multiple_coils: None, write_multiple_registers: None, on_destroy: None, ctx: std::ptr::null_mut() };
+        let ictx = Box::leak(Box::new(StressCtx { value: 0, block: 4, coils: false, pt: 2 }));
+        let cfg = ffi::DatabaseCallback { callback: Some(stress_init), on_destroy: None, ctx: ictx as *mut StressCtx as *mut c_void };
+        let map = ffi::rodbus_device_map_create();
+        ffi::rodbus_device_map_add_endpoint(map, 1, handler, cfg);
+        let filter = ffi::rodbus_address_filter_any();
+        let addr = CString::new("127.0.0.1").unwrap();
+        let mut server: *mut rodbus_ffi::Server = std::ptr::null_mut();
+        let rc = ffi::rodbus_server_create_tcp(rt, addr.as_ptr(), port, filter, 4, map, if via_set { decode0() } else { level.clone() }, &mut server);
+        ffi::rodbus_address_filter_destroy(filter);
+        ffi::rodbus_device_map_destroy(map);
+        assert_eq!(rc, 0);
+        if via_set {
+            ffi::rodbus_server_set_decode_level(server, level);
+            std::thread::sleep(Duration::from_millis(30));
+        }
+        let _ = decode_lines();
+        one_exchange(port);
+        let lines = decode_lines();
+        ffi::rodbus_server_destroy(server);
+        ffi::rodbus_runtime_destroy(rt);
+        lines
+    };
+    let rust = {
+        use rodbus::server::*;
+        use rodbus::*;
+        let rt = tokio::runtime::Builder::new_multi_thread().worker_threads(1).enable_all().build().unwrap();
+        let port = free_port();
+        let lv = decode_level(&[a as u8, f as u8, p as u8]);
+        let mut map = ServerHandlerMap::new();
+        map.add(UnitId::new(1), FixedHandler.wrap());
+        let mut handle = rt.block_on(async {
+            spawn_tcp_server_task(4, format!("127.0.0.1:{port}").parse().unwrap(), map, AddressFilter::Any,
+                if via_set { DecodeLevel::nothing() } else { lv }).await.unwrap()
+        });
+        if via_set {
+            let _ = rt.block_on(handle.set_decode_level(lv));
+            std::thread::sleep(Duration::from_millis(30));
+        }
+        let _ = decode_lines();
+        one_exchange(port);
+        let lines = decode_lines();
+        drop(handle);
+        rt.shutdown_timeout(Duration::from_millis(500));
+        lines
+    };
+    sink.emit(json!({"e":"ffi_decode","level":[a, f, p],"via_set":via_set,"role":"server","cabi":cabi,"rust":rust}));
+}
+
 /// one identical transaction through a C-ABI channel and through a Rust channel at the same-named decode level:
 /// what is logged must be the same
 fn decode_levels(sc: &Scenario, sink: &Sink) {
     configure_ffi_logging_once();
     for st in &sc.steps {
         let (a, f, p) = (st.values[0] as usize, st.values[1] as usize, st.values[2] as usize);
+        if st.op == "server" || st.op == "server_set" {
+            decode_levels_server(sink, a, f, p, st.op == "server_set");
+            continue;
+        }
         let via_set = st.op == "set";
         // ---- C ABI
         let cabi = unsafe {
